@@ -128,12 +128,12 @@ def init_module(
     )
     main_class_name = main_class_names[module_name]
 
-    module_name = conf_dict.get("module", default_module_name)
+    # Leave the configuration itself unchanged, sections may share a mapping
+    # and the configuration may be used for another Model instance
+    conf_dict = dict(conf_dict)
+    module_name = conf_dict.pop("module", default_module_name)
     module_object = load_module(module_name)
     MainClass = getattr(module_object, main_class_name)
-
-    if "module" in conf_dict:
-        del conf_dict["module"]
 
     return MainClass(modules=all_modules_dict, **conf_dict)
 
